@@ -155,6 +155,7 @@ fn project(rows: &[Row], keys: &[String]) -> Vec<Row> {
 fn c22_gen_config() -> GenConfig {
     let mut cfg = default_gen_config();
     cfg.query.fold_bias = true;
+    cfg.query.quiet_folds = true;
     cfg
 }
 
